@@ -9,6 +9,7 @@ pub fn run(kind: &str, i: &Input) -> String {
         "vm_op" => vm_op(i),
         "asm_bytes" => asm_bytes(i),
         "vm_prog" => vm_prog(i),
+        "types_convert" => types_convert(i),
         "hash_addrs" => hash_addrs(i),
         "lock_stress" => lock_stress(i),
         "vm_io" => vm_io(i),
@@ -596,4 +597,38 @@ fn hash_addrs(i: &Input) -> String {
     if let Some(s) = &salt { pre.extend_from_slice(s); }
     let reference = ContentAddress(essential_hash::hash_bytes(&pre));
     format!("result=ok\norder_independent={same}\nmatches_reference={}\n", base == reference)
+}
+
+/// fixed-width conversions on concrete bytes (`bytes` = 65 bytes, `word`, `slice`)
+fn types_convert(i: &Input) -> String {
+    use essential_types::convert::*;
+    let mut b = [0u8; 65];
+    for (j, x) in bytes(get(i, "bytes")).into_iter().enumerate().take(65) { b[j] = x; }
+    let w: i64 = get(i, "word").parse().unwrap_or(0);
+    let mut ok = true;
+    let mut why = String::new();
+    let mut chk = |c: bool, m: &str| if !c { ok = false; why.push_str(m); why.push(';'); };
+    chk(bytes_from_word(w) == w.to_be_bytes(), "bytes_from_word");
+    chk(word_from_bytes(bytes_from_word(w)) == w, "word_from_bytes(bytes_from_word)");
+    let b8: [u8; 8] = b[..8].try_into().unwrap();
+    chk(bytes_from_word(word_from_bytes(b8)) == b8, "bytes_from_word(word_from_bytes)");
+    chk(word_from_bytes(b8) == i64::from_be_bytes(b8), "word_from_bytes be");
+    let b32: [u8; 32] = b[..32].try_into().unwrap();
+    let b64: [u8; 64] = b[..64].try_into().unwrap();
+    let w4 = word_4_from_u8_32(b32);
+    chk((0..4).all(|k| w4[k] == i64::from_be_bytes(b32[8 * k..8 * k + 8].try_into().unwrap())), "word_4_from_u8_32 be");
+    chk(u8_32_from_word_4(w4) == b32, "u8_32_from_word_4(word_4_from_u8_32)");
+    let w8 = word_8_from_u8_64(b64);
+    chk((0..8).all(|k| w8[k] == i64::from_be_bytes(b64[8 * k..8 * k + 8].try_into().unwrap())), "word_8_from_u8_64 be");
+    chk(u8_64_from_word_8(w8) == b64, "u8_64_from_word_8(word_8_from_u8_64)");
+    let sl = bytes(get(i, "slice"));
+    let mut pad = [0u8; 8];
+    for (j, x) in sl.iter().enumerate().take(8) { pad[j] = *x; }
+    chk(word_from_bytes_slice(&sl) == i64::from_be_bytes(pad), "word_from_bytes_slice");
+    chk(bool_from_word(w) == match w { 0 => Some(false), 1 => Some(true), _ => None }, "bool_from_word");
+    let sig = essential_types::Signature::from(b);
+    chk(<[u8; 65]>::from(sig.clone()) == b && sig.0[..] == b[..64] && sig.1 == b[64], "Signature <-> [u8;65]");
+    let ca = ContentAddress::from(w4);
+    chk(ca.0 == b32 && <[i64; 4]>::from(ca.clone()) == w4 && <[u8; 32]>::from(ca) == b32, "ContentAddress conversions");
+    format!("result=ok\nall_ok={ok}\nfailed={why}\n")
 }
